@@ -635,22 +635,25 @@ def decodeTbs (raw : Bytes) (outerParam : Bool) (signature : Bytes) : Option Dec
                             finishTbs serial innerParam outerParam issuer subject notBefore notAfter keyAlg keyUnused
                               keyBits raw signature e
 
+/-- `Cert::from_constructed` on the content of the certificate SEQUENCE -/
+def certBody (c : Bytes) : Option Decoded :=
+  if c = [] then none else
+  match skipOne c with
+  | none => none
+  | some r1 =>
+    let raw := c.take (c.length - r1.length)
+    match takeSigAlg r1 with
+    | none => none
+    | some (outerParam, r2) =>
+      match takeBitString r2 with
+      | none => none
+      | some (_, sig, r3) => if r3 ≠ [] then none else decodeTbs raw outerParam sig
+
 /-- `Cert::take_from`: one certificate and what follows it -/
 def takeCert (b : Bytes) : Option (Decoded × Bytes) :=
   match takeCons tagSeq b with
   | none => none
-  | some (c, rest) =>
-    if c = [] then none else
-    match skipOne c with
-    | none => none
-    | some r1 =>
-      let raw := c.take (c.length - r1.length)
-      match takeSigAlg r1 with
-      | none => none
-      | some (outerParam, r2) =>
-        match takeBitString r2 with
-        | none => none
-        | some (_, sig, r3) => if r3 ≠ [] then none else (decodeTbs raw outerParam sig).map (·, rest)
+  | some (c, rest) => (certBody c).map (·, rest)
 
 /-- `Cert::decode`: the source is unbounded, what follows the certificate is not looked at -/
 def decodeCert (b : Bytes) : Option Decoded := (takeCert b).map (·.1)
